@@ -13,6 +13,7 @@ from fractions import Fraction
 import numpy as np
 
 from .. import common, gen
+from . import c17_foreign as FG
 from . import c17_forces as FO
 from . import c17_util as U
 
@@ -396,6 +397,8 @@ def _suffix(meta):
         s += "-fine"
     if meta.get("wide_lattice"):
         s += "-wide-lattice"
+    if meta.get("after_foreign"):
+        s += "-after-foreign-input"
     return s
 
 
@@ -459,6 +462,69 @@ def check_directed_formats(run, rng, rt):
         run.case(("directed", m, role) + _cell_case(cell), nontrivial=True)
         _judge(run, rt, m, cell, meta, "cell aimed at the unseparated %s field" % role, "dir_%s_%s_%d" % (m, role, k))
     run.cov["unseparated_fields_not_exercised"] = skipped
+
+
+def check_reader_state(run, rng, rt):
+    """reader-state sequences: foreign native inputs with optional features first (each twice), then the usual
+    round trips in the same process, then the foreign inputs once more"""
+    from phonopy.interface.calculator import read_crystal_structure
+
+    work = os.getcwd()
+    cov = {}
+    for m in U.INTERFACES:
+        if m == "cp2k":
+            continue
+        files = FG.foreign_inputs(common.REPO, m, work)
+        rng.shuffle(files)
+        seq = []
+
+        def read(label, path, cwd):
+            top = os.getcwd()
+            if cwd:
+                os.chdir(cwd)
+            try:
+                with quiet():
+                    cell, _ = read_crystal_structure(path, interface_mode=m)
+                return FG.snapshot(cell)
+            except (Exception, SystemExit) as e:
+                if _site_of(e) is None:
+                    raise
+                return ("raises", type(e).__name__)
+            finally:
+                os.chdir(top)
+                seq.append(label)
+
+        first = {}
+        for label, path, cwd in files:
+            a = read(label, path, cwd)
+            b = read(label, path, cwd)
+            first[label] = a
+            run.case(("foreign", m, label), nontrivial=True)
+            run.count("oracle-reader-state: file read twice", section="oracle")
+            if a != b:
+                run.violation("read_crystal_structure[%s]" % m, "reader-state-second-read-differs",
+                              "%s: reading %s twice in a row gives %s, then %s" % (m, label, FG.describe(a), FG.describe(b)),
+                              dict(interface=m, sequence=list(seq)))
+        cov[m] = dict(files=[f[0] for f in files], readable=sum(1 for v in first.values() if v[0] == "cell"))
+        if not files:
+            continue
+        # the usual round trips, now with whatever state the foreign inputs left behind
+        for t, kw in enumerate([dict(layout="interleaved", outside=False), dict(layout="grouped", outside=True)]):
+            cell, meta = U.random_cell(rng, **kw)
+            meta = dict(meta, after_foreign=True)
+            run.case(("rt-after-foreign", m) + _cell_case(cell), nontrivial=True)
+            run.count("round trips after foreign inputs")
+            _judge(run, rt, m, cell, meta, "unit cell %d written and read after the inputs %s" % (t, [os.path.basename(x) for x in seq[::2]]),
+                   "rtf_%s_%d" % (m, t))
+        # and the foreign inputs again: same answer as the first time
+        for label, path, cwd in files:
+            c = read(label, path, cwd)
+            run.count("oracle-reader-state: file re-read at the end of the sequence", section="oracle")
+            if c != first[label]:
+                run.violation("read_crystal_structure[%s]" % m, "reader-state-depends-on-history",
+                              "%s: %s read first gave %s, read again after %d other reads %s" % (m, label, FG.describe(first[label]), len(seq) - 1, FG.describe(c)),
+                              dict(interface=m, sequence=list(seq)))
+    run.cov["reader_state_sequences"] = cov
 
 
 def check_roundtrips(run, rng, rt, ncells):
@@ -1121,6 +1187,7 @@ def main(run):
         rt = RoundTrips(run)
         not_covered = check_roundtrips(run, rng, rt, ncells=160 if thorough else 8)
         check_directed_formats(run, rng, rt)
+        check_reader_state(run, rng, rt)
         check_displaced(run, rng, rt, thorough)
         rt.flush()
         run.cov["not_covered"] = not_covered
